@@ -97,6 +97,7 @@ Print Assumptions C09_rangepoint_text_key.
    [rearrange] is the rearranger (C03), any function with the two stated properties. *)
 Theorem C09_preproc_same_db_outside_finding : forall o v2 serial pserial rearrange,
   (forall a, wf_bytes a -> length a = 16%nat -> o_parse_ip o (o_print_ip o a) = Some a) ->
+  o_parse_ip o [] = None ->
   (forall a, contains 44 (o_print_ip o a) = false) ->
   (forall a b, to_lower o (a ++ 46 :: b) = to_lower o a ++ 46 :: to_lower o b) ->
   (forall a, contains 46 a = false -> contains 46 (to_lower o a) = false) ->
